@@ -844,6 +844,9 @@ def _pre_sem(m: Model) -> T.Callable[[Atom], T.Optional[T.Tuple[str, bool]]]:
         st = _state_atom(f, a)
         if st:
             return 'S' + st, False
+        if a.kind == 'cmp' and a.args[0] == 'eq' and f.state_of(a.args[1]) and f.state_of(a.args[2]):
+            # a state test evaluated after the state was assigned on this row: two constants, decided by their folded values
+            return ('constants equal' if f.state_of(a.args[1]) == f.state_of(a.args[2]) else 'constants differ'), False
         th = _thresh(a, lambda x: x == 'self.version')
         if th:
             return f'version>={th[0]}', th[1]
@@ -922,7 +925,8 @@ def _check_pre(m: Model) -> None:
         rec = ind is not None and f.role_ref(ind, 'yaml_start', 'indent') and ln is not None and ln == _final(r, 'lineno')
         return {'state': None if fs is None else (f.state_of(fs) or fs), 'YAML bookkeeping': bool(rec), 'events': _names(_events(f, r)),
                 'leaves by': r.outcome[0]}
-    n, bad, holes = compare(tab, _pre_sem(m), ref, got, _pre_extra(f), consistent=lambda v: _one_state(v) is not None)
+    n, bad, holes = compare(tab, _pre_sem(m), ref, got, _pre_extra(f),
+                            consistent=lambda v: _one_state(v) is not None and v.get('constants equal') in (None, True) and v.get('constants differ') in (None, False))
     _split(m, tab, bad, {'state': 'C18.R1', 'YAML bookkeeping': 'C18.R1', 'events': 'C18.R2', 'leaves by': 'C18.R2'}, n,
            {'C18.R1': 'next state and YAML bookkeeping', 'C18.R2': 'events and blank/diagnostic handling'})
     for v in holes:
@@ -1582,7 +1586,7 @@ def _check_parse_test(m: Model) -> None:
 # ----------------------------------------------------------------------------------------------
 # R1 state machine
 # ----------------------------------------------------------------------------------------------
-def _state_flow(f: Facts) -> T.Tuple[CFG, T.Dict[int, T.FrozenSet[int]]]:
+def _state_flow(f: Facts) -> T.Tuple[CFG, T.Dict[int, T.FrozenSet[int]], bool]:
     """Constant propagation of self.state over {_MAIN, _AFTER_TEST, _YAML} on the CFG of parse_line, refined on the
     true/false edges of `self.state ==/!= <constant>` tests.  Returns the set of possible states on entry of every node."""
     fn = f.sections().text_fn
@@ -1626,6 +1630,7 @@ def _state_flow(f: Facts) -> T.Tuple[CFG, T.Dict[int, T.FrozenSet[int]]]:
                             raise Undecided(f'{c.func.attr}: self.state is assigned `{short(w)}`, not one of the three state constants')
                         out.add(k)
         return frozenset(out) if hit else None
+    opaque = [False]     # a called method stores into self.state: the per-function propagation is only a may-analysis there
     IN: T.Dict[int, T.FrozenSet[int]] = {cfg.entry.id: allv}
     work = [cfg.entry.id]
     while work:
@@ -1650,6 +1655,7 @@ def _state_flow(f: Facts) -> T.Tuple[CFG, T.Dict[int, T.FrozenSet[int]]]:
                         cw = call_writes(node.ast)
                         if cw is not None:
                             out = s_in | cw
+                            opaque[0] = True
                 elif node.kind == 'test' and label in (True, False):
                     t = state_test(node.ast.test)   # type: ignore[union-attr]
                     if t is not None:
@@ -1659,7 +1665,7 @@ def _state_flow(f: Facts) -> T.Tuple[CFG, T.Dict[int, T.FrozenSet[int]]]:
             if succ not in IN or new != IN[succ]:
                 IN[succ] = new
                 work.append(succ)
-    return cfg, IN
+    return cfg, IN, opaque[0]
 
 
 def r1(ctx: RuleCtx) -> None:
@@ -1686,10 +1692,15 @@ def r1(ctx: RuleCtx) -> None:
     ctx.floor('writes of self.state', nstate, 2)
     ctx.ok(f'all {len(writers)} writes of the parser fields ({nstate} of self.state) are in {sorted(reach)}: the tables describe every transition')
     # constant propagation of state on the CFG
-    cfg, IN = _state_flow(f)
+    cfg, IN, opaque = _state_flow(f)
     reach = cfg.reachable([cfg.entry])
     n_assert = n_yaml = 0
-    for node in cfg.nodes:
+    if opaque:
+        # the state transitions live (partly) in a helper whose result steers the caller: the CFG propagation cannot follow that.
+        # The prefix table has the helper's paths spliced in and decides the same obligations: YAML is entered only on the
+        # AFTER_TEST rows, and a world in which no row completes is an assertion that fails (reported from the table below).
+        ctx.ok('state transitions are (partly) in a helper method: the assertion and the YAML entry are decided on the spliced prefix table')
+    for node in ([] if opaque else cfg.nodes):
         if node.id not in reach or node.kind != 'stmt' or node.ast is None:
             continue
         st = node.ast
@@ -1714,7 +1725,7 @@ def r1(ctx: RuleCtx) -> None:
                         f'{sorted(names[x] for x in s_in)})', mod, f'{PARSER}.parse_line', st,
                         f'state := _YAML is reachable from state {badv}: YAML blocks are only accepted directly after a test line', st)
     ctx.floor('state assertions', n_assert, 0)
-    ctx.floor('YAML entries', n_yaml, 1)
+    ctx.floor('YAML entries', n_yaml, 0 if opaque else 1)
     m = model(ctx)
     m.emit(ctx, 'C18.R1')
     m.require_decided()
@@ -2021,8 +2032,14 @@ def r4(ctx: RuleCtx) -> None:
     ctx.floor('int() sites', n_int, 1)
     ctx.floor('assert sites', n_assert, 0)
     # the assertion(s): discharged by the constant propagation of R1
-    cfg1, IN = _state_flow(f)
-    for node in cfg1.nodes:
+    cfg1, IN, opaque1 = _state_flow(f)
+    if opaque1:
+        held = not any(d.rule == 'C18.R1' and 'state assertion' in d.construct for d in m.diffs) and not m.pending
+        if not held and m.pending:
+            raise Undecided('the state assertion is decided on the prefix table, which is undecided: ' + m.pending[0])
+        ctx.require(held, 'the state assertion cannot fail (decided on the prefix table with the helper spliced in, see C18.R1)', mod, f'{PARSER}.parse_line',
+                    'state assertion', 'a world of the prefix table has no completing row: the state assertion fails there (see C18.R1)')
+    for node in ([] if opaque1 else cfg1.nodes):
         if node.kind == 'stmt' and isinstance(node.ast, ast.Assert):
             t = node.ast.test
             ok = False
@@ -2299,11 +2316,23 @@ def r5(ctx: RuleCtx) -> None:
         raise Undecided(f'{qn}: expected one loop over the parser events')
     loop = loops[0]
     ps = _params(fn)
-    it_ok = (isinstance(loop.iter, ast.Call) and isinstance(loop.iter.func, ast.Attribute) and loop.iter.func.attr in ('parse_async', 'parse')
-             and isinstance(loop.iter.func.value, ast.Call) and norm(loop.iter.func.value) == f'{PARSER}()'
-             and len(loop.iter.args) == 1 and isinstance(loop.iter.args[0], ast.Name) and loop.iter.args[0].id in ps)
-    ctx.require(it_ok, f'{qn}: the events are those of a fresh {PARSER}() over the test output', mod, qn, loop.iter,
-                f'the loop iterates `{short(loop.iter)}`, not {PARSER}().parse_async(<lines>)')
+    if not (isinstance(loop.iter, ast.Call) and isinstance(loop.iter.func, ast.Attribute) and loop.iter.func.attr in ('parse_async', 'parse')
+            and len(loop.iter.args) == 1 and isinstance(loop.iter.args[0], ast.Name) and loop.iter.args[0].id in ps):
+        raise Undecided(f'{qn}: the loop iterates `{short(loop.iter)}`, which is not <parser>.parse_async(<lines>)')
+    recv = loop.iter.func.value
+    if isinstance(recv, ast.Name):      # a local bound once in this function: its reaching definition
+        defs_ = [st_.value for st_ in ast.walk(fn) if isinstance(st_, (ast.Assign, ast.AnnAssign)) and getattr(st_, 'value', None) is not None
+                 and any(isinstance(t, ast.Name) and t.id == recv.id for t in (st_.targets if isinstance(st_, ast.Assign) else [st_.target]))]
+        if len(defs_) == 1:
+            recv = defs_[0]
+    if isinstance(recv, ast.Call) and norm(recv) == f'{PARSER}()':
+        ctx.ok(f'{qn}: the events are those of a fresh {PARSER}() over the test output')
+    elif (attr_chain(recv) or '').startswith('self.') or (isinstance(recv, ast.Name) and recv.id not in {n.id for n in ast.walk(fn) if isinstance(n, ast.Name)
+                                                                                                   and isinstance(n.ctx, ast.Store)} | set(ps)):
+        ctx.violation(mod, qn, loop.iter, f'the loop iterates `{short(loop.iter)}`: the parser object outlives this run (its state, plan and counters '
+                      f'carry over from an earlier stream); a fresh {PARSER}() per run is required', loop.iter)
+    else:
+        raise Undecided(f'{qn}: cannot tell which parser object `{short(loop.iter)}` uses')
     idx = fn.body.index(loop)
     tail = fn.body[idx + 1:]
     ev = loop.target.id
